@@ -224,16 +224,24 @@ impl Store {
         }
     }
 
+    pub(super) fn dependent_loads(&self, operation: Operation) -> &[Option<Access>] {
+        match &self.entries[operation.obj.index] {
+            Entry::Atomic(entry) => entry.dependent_loads(operation.action.into()),
+            _ => &[],
+        }
+    }
+
     pub(super) fn set_last_access(
         &mut self,
         operation: Operation,
+        thread: usize,
         path_id: usize,
         dpor_vv: &VersionVec,
     ) {
         match &mut self.entries[operation.obj.index] {
             Entry::Arc(entry) => entry.set_last_access(operation.action.into(), path_id, dpor_vv),
             Entry::Atomic(entry) => {
-                entry.set_last_access(operation.action.into(), path_id, dpor_vv)
+                entry.set_last_access(operation.action.into(), thread, path_id, dpor_vv)
             }
             Entry::Mutex(entry) => entry.set_last_access(path_id, dpor_vv),
             Entry::Condvar(entry) => entry.set_last_access(path_id, dpor_vv),
